@@ -238,3 +238,7 @@ UNITS += _carried("C08")
 # class specs inside a list / mapping of an Any-typed value are adapted in a copy (an OrderedDict given by the caller is not copied by the parse methods)
 from contracts.any_units import adapt_classes_any_unit as _aca_any_unit  # noqa: E402
 UNITS.append(_aca_any_unit("C08"))
+
+# every container arm adapts a copy: the list / dict the caller gave (it reaches the arm by reference inside an OrderedDict or a tuple) is not written
+from contracts.adapt_arms import arms_units as _c08_arms_units  # noqa: E402
+UNITS += [u for u in _c08_arms_units("C08") if u.label in ("Tuple/Set", "List", "Dict")]
